@@ -12,7 +12,8 @@
  *   <flags>   letters: w = warm (main thread prints the shared tree as XML and JSON before the threads start, so all lazily
  *             cached canonical strings exist), p = prime (every thread first logs one error, cleans it and waits for
  *             the others: all per-thread error records exist before the workloads start), f = forced schedule (no
- *             common start barrier; the order is given by the W/N/H/Z operations), - = none
+ *             common start barrier; the order is given by the W/N/H/Z operations), v = also print the results of the E
+ *             operations of the concurrent run (res=<thread>:<noerr|e<items>>,...;...), - = none
  *   <ops>     comma separated operations of one thread (string arguments in hex):
  *       Px<i> Pj<i> Pl<i>  parse document i (XML / JSON / its LYB form) into an OWN tree with validation; when it parses:
  *                    print it in the three formats, re-parse the LYB, compare, XPath queries, duplicate, edit, diff, apply
@@ -27,7 +28,9 @@
  *       Sc           lyd_compare_siblings of the shared tree against a private copy (parsed from the same LYB)
  *       W<k> N       wait until the case-wide sequence counter is >= k (at most 2 s) / increment it
  *       H<k>         arm: at this thread's next unlock of ctx->lyb_hash_lock increment the counter, wait until it is >= k,
- *                    then report whether the error table arena (err_ht->recs) was reallocated meanwhile
+ *                    then report whether the error table arena (err_ht->recs) was reallocated meanwhile. While the thread
+ *                    waits, a free() of that arena by libyang zeroes and keeps the memory (see __wrap_free), so that the
+ *                    use of the dangling record pointer has a deterministic effect: the thread's errors are gone
  *       Z<k>         arm: at this thread's next call of lydict_insert_zc increment the counter and wait until it is >= k
  *     Every thread ends with ly_err_clean(), releases the dictionary references it still holds and frees its trees.
  *
@@ -41,9 +44,10 @@
  *   lock=<table accesses checked>:<accesses without the table's lock held>   (dict.hash_tab under dict.lock, err_ht under
  *        lyb_hash_lock; recorded by the --wrap wrappers below)
  *   dangling=<times the H hook saw the arena reallocated between ly_err_get_rec()'s unlock and the caller's dereference>
+ *   res=...  (flag v)    left=<hex>  (the first strings left in the dictionary)
  *   tsan=<n>[|kind~frames of stack 1/frames of stack 2]*   (ThreadSanitizer build only; reports parsed from stderr)
  *
- * VERIF_FLAGS: -Wl,--wrap=pthread_mutex_lock -Wl,--wrap=pthread_mutex_unlock -Wl,--wrap=lyht_find -Wl,--wrap=lyht_insert -Wl,--wrap=lyht_insert_with_resize_cb -Wl,--wrap=lyht_remove_with_resize_cb -Wl,--wrap=lyht_remove -Wl,--wrap=lydict_insert_zc
+ * VERIF_FLAGS: -Wl,--wrap=pthread_mutex_lock -Wl,--wrap=pthread_mutex_unlock -Wl,--wrap=lyht_find -Wl,--wrap=lyht_insert -Wl,--wrap=lyht_insert_with_resize_cb -Wl,--wrap=lyht_remove_with_resize_cb -Wl,--wrap=lyht_remove -Wl,--wrap=lydict_insert_zc -Wl,--wrap=free
  */
 #include "common.h"
 
@@ -119,7 +123,7 @@ static struct ly_ctx *volatile g_ctx;   /* context under test (wrappers compare 
 static struct lyd_node *g_shared;
 static struct doc docs[MAXDOCS];
 static int ndocs, shared_idx;
-static int f_warm, f_prime, f_forced;
+static int f_warm, f_prime, f_forced, f_verbose;
 static int concurrent;                  /* 1 in the concurrent runs: sync operations and hooks are active */
 
 static long lock_checked, lock_viol, dangling;          /* atomics */
@@ -140,6 +144,27 @@ static __thread void *held[16];
 static __thread int nheld;
 static __thread int arm_unlock = -1, arm_zc = -1;
 static __thread int in_hook;
+
+/* H hook: the arena of err_ht that the armed thread's record pointer points into. When libyang frees it, it is zeroed and
+ * kept (never given back to the allocator) instead: a later dereference of the dangling pointer then deterministically
+ * reads rec->err == NULL, i.e. the thread's errors are gone, instead of whatever the allocator left there */
+static void *volatile q_target;
+static size_t q_size;
+static long q_hits;
+
+void __real_free(void *p);
+
+void
+__wrap_free(void *p)
+{
+    if (p && (p == q_target)) {
+        memset(p, 0, q_size);
+        q_target = NULL;
+        __atomic_add_fetch(&q_hits, 1, __ATOMIC_RELAXED);
+        return;
+    }
+    __real_free(p);
+}
 
 int __real_pthread_mutex_lock(pthread_mutex_t *m);
 int __real_pthread_mutex_unlock(pthread_mutex_t *m);
@@ -199,6 +224,8 @@ __wrap_pthread_mutex_unlock(pthread_mutex_t *m)
     hook = concurrent && ctx && (m == &ctx->lyb_hash_lock) && (arm_unlock >= 0) && !in_hook;
     if (hook) {
         arena = ctx->err_ht->recs;      /* still under the lock */
+        q_size = (size_t)ctx->err_ht->size * ctx->err_ht->rec_size;
+        q_target = arena;
     }
     r = __real_pthread_mutex_unlock(m);
 
@@ -214,6 +241,7 @@ __wrap_pthread_mutex_unlock(pthread_mutex_t *m)
         if (ctx->err_ht->recs != arena) {
             __atomic_add_fetch(&dangling, 1, __ATOMIC_RELAXED);
         }
+        q_target = NULL;
         __real_pthread_mutex_unlock(&ctx->lyb_hash_lock);
         in_hook = 0;
     }
@@ -1156,6 +1184,7 @@ main(void)
         f_warm = strchr(c.f[3], 'w') != NULL;
         f_prime = strchr(c.f[3], 'p') != NULL;
         f_forced = strchr(c.f[3], 'f') != NULL;
+        f_verbose = strchr(c.f[3], 'v') != NULL;
         sh = atoi(c.f[4]);
         nd = atoi(c.f[5]);
         base = 6 + nd;
@@ -1255,6 +1284,29 @@ main(void)
                 /* the first strings left behind (hex), for the report */
                 printf(" left=");
                 vputhex(notfreed_strs[k] ? notfreed_strs[k] : "?", notfreed_strs[k] ? strlen(notfreed_strs[k]) : 1);
+            }
+        }
+        if (!rc && f_verbose) {
+            /* the results of the E operations of the (last) concurrent run: noerr or e<number of stored items> */
+            printf(" res=");
+            for (int i = 0; i < nthr; ++i) {
+                char *cp = strdup(c.f[base + i]), *sv = NULL, *op = strtok_r(cp, ",", &sv);
+                int first = 1;
+
+                printf("%s%d:", i ? ";" : "", i);
+                for (int j = 0; (j < TC[i].nres) && op; ++j, op = strtok_r(NULL, ",", &sv)) {
+                    if (!strcmp(op, "E")) {
+                        int a, b, cnt;
+
+                        if (sscanf(TC[i].res[j], "e%d.%d.%d.", &a, &b, &cnt) == 3) {
+                            printf("%se%d", first ? "" : ",", cnt);
+                        } else {
+                            printf("%s%s", first ? "" : ",", TC[i].res[j]);
+                        }
+                        first = 0;
+                    }
+                }
+                free(cp);
             }
         }
         tsan_report();
